@@ -131,3 +131,17 @@ def gen_marker(rng, depth=3, leaves=None, focus=None):
         subs = [go(sz, d - 1) for sz in sizes]
         return op.join(f"({p})" if (" or " in p or " and " in p) and rng.random() < 0.85 else p for p in subs)
     return go(n, depth), n, feats
+
+
+def two_reversed_substring_leaves(*texts):
+    """Known-finding region D35: at least two reversed substring leaves ('x' in V / 'x' not in V) with
+    different literals on one variable among the given marker texts."""
+    import re
+    seen = {}
+    for s in texts:
+        for lit, var in re.findall(r"""['"]([^'"]*)['"]\s+(?:not\s+in|in)\s+([a-z_.]+)""", s or ""):
+            seen.setdefault(var.replace(".", "_"), set()).add(lit)
+    return any(len(v) >= 2 for v in seen.values())
+def d35_matcher(known, case):
+    return known.get("matcher") == "two_reversed_substring_leaves_on_one_variable" and \
+        two_reversed_substring_leaves(case.get("a"), case.get("b"), case.get("marker"))
